@@ -174,6 +174,14 @@ async def run_scenario(aiocoap, sc):
     escaped = []
     state = {"cur": 0, "answered": 0, "hows": list(sc.get("hows") or []), "served": [], "matched": []}
 
+    def app_cancel():
+        # the application's own call; what it raises is raised into the application (a second cancel() is a no-op
+        # since fix 7ecf556: `C07_cancel_again_is_noop` -- compared through the trace, not judged by the oracle)
+        try:
+            req.observation.cancel()
+        except Exception as e:
+            state.setdefault("app_raised", []).append(type(e).__name__)
+
     def start_other(rem):
         m2 = A.Message(code=A.GET, uri_path=("other", str(len(others))))
         m2.remote = remotes[rem]
@@ -318,7 +326,7 @@ async def run_scenario(aiocoap, sc):
                 seen.append(("oc",))
                 # (the waiter of the response future runs before the task `_run` has just created for the loop)
                 state["start"] = "^c"
-                req.observation.cancel()
+                app_cancel()
             only = loop.create_task(only_the_response())
         if sc["consumer"] == "iter":
             consumer = loop.create_task(consume())
@@ -335,7 +343,7 @@ async def run_scenario(aiocoap, sc):
             state["served"].append(("OC",))
             seen.append(("oc",))
             state["start"] = "^c"
-            req.observation.cancel()
+            app_cancel()
             await turn(4)
         while steps and steps[0][0] == "O" and steps[0][1] <= 0:
             o = steps.pop(0)
@@ -358,7 +366,7 @@ async def run_scenario(aiocoap, sc):
                         state["start"] = "^c"        # the response is not complete: the loop's task does not exist yet
                     else:
                         trace.append(["cancel", []])
-                req.observation.cancel()
+                app_cancel()
                 await turn(4)
             elif st[0] == "O":
                 if st[1] != -1:
@@ -442,7 +450,8 @@ async def run_scenario(aiocoap, sc):
     return {"seen": snapshot, "resp": resp, "escaped": escaped, "loop_errors": loop_errors, "pending": pending,
             "served": state["served"], "outstanding": outstanding, "trace": trace_snapshot,
             "lower_end": trace_end, "gave_up": gave_up, "matched": state["matched"], "others": other_states,
-            "start": state.get("start", ""), "lower_cancelled": lower_cancelled}
+            "start": state.get("start", ""), "lower_cancelled": lower_cancelled,
+            "app_raised": state.get("app_raised", [])}
 
 
 # ---------------------------------------------------------------------------------------------
@@ -717,6 +726,8 @@ def trace_lines(res):
             and res["resp"] is not None and res["resp"][0] == "resp":
         toks.append("?L")
         outs.append("L+" if res["lower_cancelled"] else "L-")
+    if res.get("app_raised"):
+        outs.append("!observation.cancel()-raised:" + ",".join(res["app_raised"]))
     return "C07 U " + " ".join(([start] if start else []) + toks), " ".join(outs) or "-"
 
 
